@@ -68,6 +68,9 @@ namespace sim
          { "unsigned_rule", RC::INTEGER },
          { "signed_rule", RC::INTEGER },
          { "maximum_rule", RC::INTEGER },
+         { "unsigned_rule_with_action", RC::INTEGER },
+         { "signed_rule_with_action", RC::INTEGER },
+         { "maximum_rule_with_action", RC::INTEGER },
          { "top0", RC::TOP },
          { "top1", RC::TOP },
          { "top2", RC::TOP },
